@@ -239,7 +239,8 @@ MANIFEST = {
                  "stalls and non-positive durations, and two _refuted theorems showing that well-formedness of imported "
                  "counters is necessary; with a failing hook receiver (C14_hook_panic_aborts_block, C14_committed_block_is_complete, "
                  "C14_every_block_of_every_history_with_failing_hook): a panicking hook commits nothing and every committed advance "
-                 "delivered AfterEpochEnd(n) once to ALL receivers before BeforeEpochStart(n+1). The model is run against the real BeginBlocker (direct and through the whole "
+                 "delivered AfterEpochEnd(n) once to ALL receivers before BeforeEpochStart(n+1); C14_one_info_per_identifier: identifiers are "
+                 "arbitrary strings, no identifier is stored twice and no block creates or loses an info. The model is run against the real BeginBlocker (direct and through the whole "
                  "application BeginBlock) with recording hooks on generated time sequences, and the proved-sound checker of the "
                  "per-block property is evaluated on the implementation traces; hook registration in app/ is re-extracted on "
                  "every run (Gen/C14Facts.v) together with the absence of recover in x/epochs and the shape of the MultiEpochHooks "
